@@ -193,6 +193,7 @@ pub fn c04(thorough: bool) -> Vec<Unit> {
     v.push(c04_phase_sweep(thorough));
     v.push(deadline_walk(thorough));
     v.push(big_batch_expiry_race(thorough));
+    v.push(waiting_consumer_handout(thorough));
     v
 }
 
@@ -565,4 +566,65 @@ pub fn big_batch_expiry_race(thorough: bool) -> Unit {
         ExecCfg { max_steps: 200_000, ..Default::default() },
         f,
     )
+}
+
+/// C04: the deadline counts from the HAND-OUT, also when the consumer had been waiting for a while.
+pub fn waiting_consumer_handout(_thorough: bool) -> Unit {
+    let f: ScenFn = scen!(|cx| {
+        let a = cx.api.clone();
+        let fail = |what: &str| ScenarioOut::viol(format!("setup/{}", what), what.to_string());
+        let dl = [10, 30][cx.choose("ack_deadline_seconds", 2)];
+        if tryv!(cx.settle("setup:create-topic", { let a = a.clone(); async move { a.create_topic(T0).await } }).await).is_err() { return fail("create-topic"); }
+        if tryv!(cx.settle("setup:create-sub", { let a = a.clone(); async move { a.create_sub(S0, T0, dl, None).await } }).await).is_err() { return fail("create-sub"); }
+        let kind = cx.choose("consumer", 3);
+        let wait_ms = [0u64, 4_200, 12_000, 200_000][cx.choose("waits-before-the-message", 4)];
+        let got: std::sync::Arc<std::sync::Mutex<Vec<(i64, usize)>>> = Default::default();
+        let (a2, g2, cx2) = (a.clone(), got.clone(), cx.clone());
+        let h = cx.spawn("client:consumer", async move {
+            match kind {
+                0 => { if let Ok(v) = a2.pull(S0, 1, false).await { g2.lock().unwrap().push((cx2.now_ms(), v.len())); } }
+                1 => { if let Ok(v) = a2.pull(S0, 10, false).await { g2.lock().unwrap().push((cx2.now_ms(), v.len())); } }
+                _ => {
+                    let (tx, r) = a2.streaming_pull(crate::world::first_stream_req(S0, 10)).await;
+                    if let Ok(mut st) = r { let _k = tx; while let Ok(Some(m)) = st.message().await { g2.lock().unwrap().push((cx2.now_ms(), m.received_messages.len())); } }
+                }
+            }
+        });
+        // the consumer's request reaches the server now, and only then time passes
+        let was = cx.freeze(true);
+        let q0 = cx.quiesce().await;
+        let q = cx.advance_ms(wait_ms).await;
+        cx.freeze(was);
+        tryv!(q0);
+        tryv!(q);
+        if tryv!(cx.settle("client:publish", { let a = a.clone(); async move { a.publish(T0, vec![(b"m".to_vec(), vec![])]).await } }).await).is_err() { return fail("publish"); }
+        let t_h = cx.now_ms();
+        let case = format!("consumer={} waited {} ms, ack deadline {} s", ["blocking Pull max 1", "blocking Pull max 10", "StreamingPull"][kind], wait_ms, dl);
+        if got.lock().unwrap().first().map(|x| x.1) != Some(1) {
+            return ScenarioOut::viol("handout/not-delivered", format!("{}: the waiting consumer did not get the message at once ({:?})", case, got.lock().unwrap()));
+        }
+        let d = dl as i64 * 1000;
+        let was = cx.freeze(true);
+        let q = cx.advance_to_ms(t_h + d - 1).await;
+        cx.freeze(was);
+        tryv!(q);
+        let st = tryv!(cx.stats(S0).await).unwrap();
+        // (a stream is still open and takes a redelivery at once: count what it received)
+        let redelivered_early = st.backlog > 0 || got.lock().unwrap().len() > 1;
+        if redelivered_early {
+            return ScenarioOut::viol("handout/redelivered-early", format!("{}: handed out at {} ms, already available again at {} ms (1 ms before the deadline)", case, t_h, t_h + d - 1));
+        }
+        let was = cx.freeze(true);
+        let q = cx.advance_to_ms(t_h + d + SLACK_MS).await;
+        cx.freeze(was);
+        tryv!(q);
+        let st = tryv!(cx.stats(S0).await).unwrap();
+        let back = st.backlog > 0 || got.lock().unwrap().len() > 1;
+        if !back {
+            return ScenarioOut::viol("handout/redelivered-late", format!("{}: handed out at {} ms, still not available again at deadline + {} ms", case, t_h, SLACK_MS));
+        }
+        h.abort();
+        ScenarioOut { sample: Some(case.clone()), ..ScenarioOut::ok(case) }
+    });
+    explore_unit("input/waiting-consumer-handout", "a blocking Pull (max 1 / 10) or an open StreamingPull has been waiting 0 / 4.2 / 12 / 200 s when the message is published; ack deadline 10 / 30 s: still leased 1 ms before hand-out + deadline, available again by + 105 ms", Bounds::new(0), ExecCfg { points_on: false, uptime_choices_ms: vec![0, UPTIMES_MS[0]], ..Default::default() }, f)
 }
